@@ -141,6 +141,7 @@ EvalResult RefEval::eval(int id) {
   for (size_t i = 0; i < work.size(); i++) {
     Req q = work[i];
     if (!requested.insert(q.k).second) continue;
+    if (skipSingleUse && q.t == SINGLE) continue;
     EvalResult in = eval(q.k);
     if (in.cyclic) {
       visiting.erase(id);
